@@ -8,6 +8,7 @@
 import GffModel.Str
 import GffModel.Bins
 import GffModel.Helpers
+import GffModel.Grammar
 
 namespace GffModel
 namespace Proto
@@ -100,6 +101,16 @@ def decChoose? : List String → Option (List (Dialect × List Str))
     pure ((d, k) :: r)
   | _ => none
 
+/-- a line specification: `<cols-list> <sep> <trailing> <eq|space> <quoted> <repeated> <attrs> <extra-list>` -/
+def decSpec? : List String → Option Grammar.LineSpec
+  | [cols, sep, tr, style, q, rep, attrs, extra] => do
+    let style ← match style with | "eq" => some Grammar.KvStyle.eq | "space" => some .space | _ => none
+    let a ← decAttrs? attrs
+    pure { cols := ← decList? cols, sep := ← Str.decode? sep, trailing := ← parseBool tr, style := style,
+           quoted := ← parseBool q, repeated := ← parseBool rep,
+           attrs := a.map (fun (k, v) => { key := k, vals := v }), extra := ← decList? extra }
+  | _ => none
+
 /-- stateless commands -/
 def stepPure (ws : List String) : Option String :=
   match ws with
@@ -125,6 +136,9 @@ def stepPure (ws : List String) : Option String :=
       match featureFromLine s d strict keep ie with
       | .ok f => pure ("ok " ++ encFeature f ie)
       | .error e => pure (encErr e)
+  | "spec" :: rest => do
+      let sp ← decSpec? rest
+      pure s!"{encBool sp.WF} {encBool sp.WFspaces} {Str.encode (Grammar.renderLine sp)} {Str.encode (Grammar.renderWithSpaces sp)} {encAttrs sp.mapping} {encDialect sp.dialect}"
   | ["unquote", s] => do let s ← Str.decode? s; pure (Str.encode (Quote.unquote s))
   | ["quote", s] => do let s ← Str.decode? s; pure (Str.encode (Quote.quoteStr s))
   | ["chars", "space", s] => do let s ← Str.decode? s; pure (bits Str.isPySpace s)
